@@ -8,7 +8,12 @@ from dask.dataframe.utils import pyarrow_strings_enabled
 from dask.utils import apply
 
 from dask_expr import SetIndexBlockwise, new_collection
-from dask_expr._expr import MapPartitions, RenameAxis, ResetIndex
+from dask_expr._expr import (
+    MapPartitions,
+    RenameAxis,
+    ResetIndex,
+    ResolveOverlappingDivisions,
+)
 from dask_expr._merge import Merge
 from dask_expr._util import _BackendData, _convert_to_list
 from dask_expr.io import FromPandas
@@ -74,14 +79,26 @@ class MergeAsof(Merge):
             return new_collection(left).set_index(self.left_on, sorted=True)
         return left
 
+    @functools.cached_property
+    def _left_rows_in_place(self):
+        # ``set_index(sorted=True)`` drops empty partitions and moves the rows of a
+        # value that straddles a partition boundary into the following partition:
+        # the original index then no longer follows the divisions of ``left``
+        left = self._left.expr
+        if not isinstance(left, ResolveOverlappingDivisions):
+            return True
+        return left.npartitions == self.left.npartitions and not any(
+            lo == hi for lo, hi in zip(left.mins[1:], left.maxes)
+        )
+
     def _divisions(self):
-        if (self.left_on or self.right_on) and (
-            not self.right_index or not self.left.known_divisions
-        ):
-            return (None,) * (self.left.npartitions + 1)
-        elif self.left_on or self.right_on:
+        if self.left_on is None:
+            # the result keeps the index of left
             return self.left.divisions
-        return self._left.divisions
+        if self.right_index and self.left.known_divisions and self._left_rows_in_place:
+            # the index of left is restored
+            return self.left.divisions
+        return (None,) * (self._left.npartitions + 1)
 
     @functools.cached_property
     def _meta(self):
@@ -105,7 +122,7 @@ class MergeAsof(Merge):
         ixname = ixcol = divs = None
         if left_on is not None:
             if right_index:
-                divs = self.left.divisions if self.left.known_divisions else None
+                divs = self.divisions if self.known_divisions else None
                 ixname = self.left.index.name
                 ixcol = left.columns[0]
 
@@ -156,7 +173,8 @@ class MergeAsof(Merge):
             self.direction,
         )
 
-        if left_on or right_on:
+        if left_on is not None:
+            # (with right_on only, the result keeps the index of left)
             result = ResetIndex(result)
             if ixcol is not None:
                 if divs is not None:
